@@ -5,9 +5,11 @@
 // nothing.  Once it is blocked, a second thread applies a sequence of 1..3 deadline changes drawn from
 // {Z: no deadline, P: a time in the past, F: one second ahead on the virtual clock}, through the specific
 // setter or through SetDeadline.  Reference: the pending call ends with a timeout error iff the sequence
-// contains P (the call is woken the moment P is set) or ends with F (the timer fires); a sequence with an F
-// that is later replaced may time out too (the clock may reach it first); otherwise the call stays blocked
-// until the harness closes the pipe, and must then end with a non-timeout result.
+// contains P (the call is woken the moment P is set) or ends with F (the timer fires); otherwise the call stays
+// blocked until the harness closes the pipe, and must then end with a non-timeout result.  The changes of one
+// sequence are applied without any time passing between them (this batch is explored with timers firing at
+// quiescence only), so an F that is replaced by Z or by a later F must not fire: a deadline that was cleared
+// or moved is no longer in force.
 package main
 
 import (
@@ -117,9 +119,6 @@ func dlScenario(param string) vsched.Scenario {
 				return obs, "Set*Deadline failed on an open pipe: " + setErr.Error()
 			}
 			wantTimeout := strings.Contains(sp.seq, "P") || strings.HasSuffix(sp.seq, "F")
-			if !wantTimeout && strings.Contains(sp.seq, "F") && doneBefore && isTimeout(opErr) && opN == 0 {
-				return obs, "" // the clock reached an F before the next change replaced it: a legitimate timeout
-			}
 			switch {
 			case wantTimeout && !doneBefore:
 				return obs, "a pending " + sp.op + " was not unblocked by the deadline (it ended only when the pipe was closed)"
